@@ -36,6 +36,11 @@ func runC10(e *Engine, r *Report) {
 	runTanDirSync(e, r)
 	// one committed write batch per save in the pebble-backed store
 	runSingleBatch(e, r)
+	// generic storage-path rules (generic.go)
+	ruleLoopAcc(e, r, 2, "internal/tan", "internal/logdb")
+	ruleDeferredErr(e, r, 8, "internal/tan", "internal/logdb", "internal/logdb/kv", "internal/logdb/kv/pebble", "internal/fileutil")
+	ruleSyncBeforeRename(e, r, 4, "internal/tan")
+	ruleTanFileInUse(e, r)
 }
 
 // runTanDirSync: after the CURRENT pointer is switched (rename inside
